@@ -492,7 +492,9 @@ def canon_model(line):
 # ------------------------------------------------------------------------------------------
 # generators
 # ------------------------------------------------------------------------------------------
-NAMES = ['a', 'b', 'c', 'd', None, None]
+# names are arbitrary strings: '%' directives, braces and quotes included (they end up in log messages)
+STR_NAMES = ['a', 'b', '100%sure', '%(k)s {0} %d\'"']
+NAMES = STR_NAMES + [None, None]
 ARGS = [[], ['x'], ['x', 'y'], ['1', '**k=v'], ['é'], ['**a=1', '**b=2']]
 
 def gen_time(r, allow_past=True):
@@ -509,10 +511,10 @@ def gen_act(r, idx, nfn):
     later = list(range(idx + 1, nfn))
     if x < 0.40 and later:
         return ['add', r.choice(later), gen_time(r), r.choice(NAMES), r.choice(ARGS)]
-    if x < 0.55: return ['remove', r.choice(['a', 'b', 'c', 'd', 0, 1, 2])]
+    if x < 0.55: return ['remove', r.choice(STR_NAMES + [0, 1, 2])]
     if x < 0.72:
         # inside a body only towards the future
-        return ['resched', r.choice(['a', 'b', 'c', 'd', 0, 1]), ('R', r.choice([0, 1, 2, 5, 10]))]
+        return ['resched', r.choice(STR_NAMES + [0, 1]), ('R', r.choice([0, 1, 2, 5, 10]))]
     if x < 0.85 and later:
         return ['periodic', r.choice(later), r.choice([0, 1, 3, 5, 10]), r.choice(NAMES), r.choice(ARGS), r.choice([None, 0, 1, 2, 3])]
     return ['raise']
@@ -535,9 +537,9 @@ def gen_ops(r, P, maxlen=40):
         if x < 0.34:
             ops.append(['add', r.randrange(nfn), gen_time(r), r.choice(NAMES), r.choice(ARGS)])
         elif x < 0.42:
-            ops.append(['remove', r.choice(['a', 'b', 'c', 'd', 0, 1, 2, 3])])
+            ops.append(['remove', r.choice(STR_NAMES + [0, 1, 2, 3])])
         elif x < 0.52:
-            ops.append(['resched', r.choice(['a', 'b', 'c', 'd', 0, 1, 2]), gen_time(r)])
+            ops.append(['resched', r.choice(STR_NAMES + [0, 1, 2]), gen_time(r)])
         elif x < 0.60:
             ops.append(['periodic', r.randrange(nfn), r.choice([0, 1, 3, 5, 10]), r.choice(NAMES), r.random() < 0.5,
                         r.choice(ARGS), r.choice([None, None, 0, 1, 2, 3])])
